@@ -21,7 +21,7 @@ RULE = (
     "parsed back into fields (mc/vcorr) and compared with the reference record built from the source documents; extended "
     "conditions by truth table. non-trivial = every case (each has >= 1 sub-query and an aggregation); distinct by (documents, configuration)."
 )
-RULE += (" " + 'Sub-space (iv): a correlation rule object that was resolved and converted in one collection is placed into a second collection whose referenced rules have other content; the result must equal a fresh load of that collection. Field mappings are also bound to a log-source rule condition and applied to chains of correlation rules; boundary percentiles and counts (0, 100) are included.')
+RULE += (" " + 'Sub-space (iv): a correlation rule object that was resolved and converted in one collection is placed into a second collection whose referenced rules have other content; the result must equal a fresh load of that collection. Field mappings are also bound to a log-source rule condition and applied to chains of correlation rules; boundary percentiles and counts (0, 100) are included. Sub-space (v): ONE backend instance converts in turn collections whose correlation rule differs only in the spelling of the timespan (18 spellings incl. all pairs equal in seconds, both orders) for every type and timespan mode; each query must carry its own timespan.')
 ASSUMPTIONS = ["stand-alone conversion of a referenced rule (same pipeline, fresh objects) is the reference for its sub-query text (its meaning is C01's subject)",
                "timespan unit lengths: s=1 m=60 h=3600 d=86400 w=604800 M=2629746 y=31556952 seconds"]
 TYPES = ["event_count", "value_count", "temporal", "temporal_ordered", "value_sum", "value_avg", "value_percentile", "value_median"]
@@ -391,8 +391,37 @@ def judge_reuse(res, ctype, refs, changed, two):
         add_violation(res, "iv:reused-correlation-rule-embeds-rules-of-an-earlier-collection", case, fresh, second)
 
 
+SPELLINGS = ["60s", "1m", "120m", "2h", "3600s", "60m", "1h", "24h", "1d", "1440m", "7d", "1w", "168h", "5m", "300s", "90s", "90m", "90d"]
+
+
+def judge_one_backend(res, ctype, mode, order):
+    """sub-space v: ONE backend instance converts, in turn, collections whose correlation rule differs only in how the timespan is written
+    (spellings that are equal in seconds follow each other in both orders); each query must carry its own rule's timespan"""
+    from sigma.collection import SigmaCollection
+
+    k = Kc(typing=True, timespan=mode)
+    b = V.make_backend_class(k)(mk_pipeline("none"))
+    seq = SPELLINGS if order == "fwd" else list(reversed(SPELLINGS))
+    for pos, spec in enumerate(seq):
+        case = {"sub": "v", "type": ctype, "mode": mode, "order": order, "upto": pos}
+        res["evaluations"] += 1
+        res["nontrivial"].add(h64([ctype, mode, order, pos]))
+        cdoc = corr_doc(ctype, ["rule1", "rule2"], timespan=spec)
+        try:
+            out = b.convert(SigmaCollection.from_dicts(copy.deepcopy([plain(1), plain(2), cdoc])))
+            q = [x for x in out if isinstance(x, str) and "SEARCH" + vcorr.L in x][0]
+            got = vcorr.parse(q)["timespan"]
+        except Exception as e:
+            add_violation(res, f"v:crash:{type(e).__name__}", case, "query", repr(e)[:200])
+            return
+        res["outcomes"].add(h64([mode, got]))
+        if got != timespan_ref(spec, mode):
+            add_violation(res, f"v:timespan-of-an-earlier-conversion-on-the-same-backend:{mode}", case, timespan_ref(spec, mode), got)
+            return
+
+
 def plan(tier, seed):
-    return [(s, i) for s in ("i", "ii", "iii") for i in range(NSH)] + [("iv", 0)]
+    return [(s, i) for s in ("i", "ii", "iii") for i in range(NSH)] + [("iv", 0), ("v", 0)]
 
 
 def run_shard(shard, tier, seed):
@@ -404,6 +433,12 @@ def run_shard(shard, tier, seed):
                 for changed in ((1,), (2,), (1, 2)):
                     for two in (False, True):
                         judge_reuse(res, t, refs, changed, two)
+        return res
+    if sub == "v":
+        for t in TYPES:
+            for mode in ("passthrough", "mapping", "seconds"):
+                for order in ("fwd", "rev"):
+                    judge_one_backend(res, t, mode, order)
         return res
     sp = {"i": space_i, "ii": space_ii, "iii": lambda: space_iii(tier)}[sub]()
     for n, (docs, cdoc, k, pipe, label) in enumerate(sp):
@@ -422,6 +457,9 @@ def replay(case):
     res = new_result()
     if case.get("sub") == "iv":
         judge_reuse(res, case["type"], case["refs"], tuple(case["changed"]), case["two_conditions"])
+        return res["violations"]
+    if case.get("sub") == "v":
+        judge_one_backend(res, case["type"], case["mode"], case["order"])
         return res["violations"]
     docs = case["documents"][:-1]
     cdoc = case["documents"][-1]
